@@ -1,4 +1,5 @@
 import FpVerif.Spec.C06
+import FpVerif.Lemmas.FutWF
 /-!
 # C06 (part 2) — soundness of the future network for every schedule
 
@@ -9,7 +10,14 @@ sources its value depends on, and never with a *different* value, whatever the o
 complete, pooled tasks run and further futures are constructed.
 
 Scope: first-order expressions (`FO`): no futures of futures (`successfulOf`, i.e. `Flatten`/`LiftM`);
-those are covered by the correspondence check only.
+those are covered by `Spec/C06HO.lean`.
+
+Side condition (audit finding 1, session 6): the executable model is TOTAL on the ill-formed Try `failure .nil`
+(`fp.Try[T]{}`, `Failure(nil)`), where a Go task panics in `t.Failed().Get()` and never completes its promise.
+`EvOK` / `Valid` therefore require `WFTry` of every source result and `WFE` of every constructed program
+(`Lemmas/FutWF.lean`); `wellformed_every_schedule` proves that then no ill-formed Try ever exists in the network;
+`illformed_source_excluded` / `illformed_failed_excluded` exhibit the excluded runs, where the model's answer
+`some (.failure .nil)` is NOT what the code does (Go replay: harness/cmd/c06illformed).
 -/
 namespace FpVerif.Spec.C06
 open FpVerif FpVerif.Fut
@@ -590,12 +598,31 @@ theorem inv_runTask {nsrc : Nat} {n : Net} (h : Inv nsrc n) (tk : Task) (htk : T
           rw [hsp]; simp [evalS, hx q _ hq, bindTry]⟩
     | observe id => exact inv_log h _
 
-/-- what the environment and the program may do -/
+/-- what the environment and the program may do.
+
+    Audit finding 1: the executable model is total on the ill-formed Try `failure .nil` (Go: `fp.Try[T]{}` /
+    `Failure(nil)`), the Go tasks are not (`t.Failed().Get()` panics, the derived promise stays pending — see
+    `Lemmas/FutWF.lean` and `illformed_source_excluded` below).  Validity therefore demands `WFTry` of every
+    source result and `WFE` (hereditarily well-formed Try results of `Failed`, `Transform` functions, `Apply`
+    bodies and of the futures user functions build) of every constructed program; `wellformed_every_schedule`
+    shows that then NO ill-formed Try ever appears in the network, so the totalised branch of the model is
+    never exercised by a valid schedule. -/
 def EvOK (nsrc : Nat) (n : Net) : Ev → Prop
   | .run _ => True
-  | .src p _ => p < nsrc                  -- only source promises are completed from outside
-  | .mk e => FO n.next e                  -- programs are first-order and use existing handles
+  | .src p t => p < nsrc ∧ WFTry t        -- only source promises are completed from outside, never with Try{} / Failure(nil)
+  | .mk e => FO n.next e ∧ WFE e          -- programs are first-order, use existing handles, produce well-formed Try results
   | .obs _ _ => True
+
+/-- the first-order / handle part of `EvOK` (what the soundness invariant needs) -/
+theorem EvOK.fo {nsrc : Nat} {n : Net} {e : FExpr} (h : EvOK nsrc n (.mk e)) : FO n.next e := h.1
+
+/-- the well-formedness part of `EvOK` (what `WFNet` needs) -/
+theorem EvOK.wf {nsrc : Nat} {n : Net} {ev : Ev} (h : EvOK nsrc n ev) : EvWF ev := by
+  cases ev with
+  | run i => trivial
+  | src p t => exact h.2
+  | mk e => exact h.2
+  | obs p id => trivial
 
 def Valid (nsrc : Nat) : Net → List Ev → Prop
   | _, [] => True
@@ -617,10 +644,10 @@ theorem inv_step {nsrc : Nat} {n : Net} (h : Inv nsrc n) (ev : Ev) (hev : EvOK n
          fun q c hc => cbOK_le hle q c (h.cbs q c hc), h.fresh, h.srcs⟩
       exact (inv_runTask h0 tk (taskOK_le hle tk (h.tasks tk hmem))).1
   | src p t =>
-    have hp : p < nsrc := hev
+    have hp : p < nsrc := hev.1
     exact (inv_complete h p t (Nat.lt_of_lt_of_le hp h.srcs.1) (by
       intro _; rw [h.srcs.2 p hp]; simp [evalS])).1
-  | mk e => exact (inv_build e n h hev).inv
+  | mk e => exact (inv_build e n h hev.1).inv
   | obs p id => exact (inv_onComplete h p (.observe id) trivial).1
 
 theorem inv_init (nsrc : Nat) : Inv nsrc (Net.empty nsrc) where
@@ -645,6 +672,90 @@ theorem sound_every_schedule (nsrc : Nat) (evs : List Ev) (hv : Valid nsrc (Net.
     Sound (runEvs (Net.empty nsrc) evs) :=
   (inv_run evs _ (inv_init nsrc) hv).sound
 
+theorem valid_evWF {nsrc : Nat} (evs : List Ev) : ∀ (n : Net), Valid nsrc n evs → ∀ ev ∈ evs, EvWF ev := by
+  induction evs with
+  | nil => intro _ _ ev h; simp at h
+  | cons a evs ih =>
+    intro n hv ev hm
+    simp only [List.mem_cons] at hm
+    rcases hm with rfl | hm
+    · exact hv.1.wf
+    · exact ih _ hv.2 ev hm
+
+/-- **No ill-formed Try, for every schedule** (audit finding 1).  Under the validity conditions — sources are
+    never completed with `Try{}` / `Failure(nil)`, `Failed(err)` is only called with `err ≠ nil`, user functions
+    handed to `Transform` / `Apply` never return an ill-formed Try for a well-formed argument, hereditarily through
+    every future a user function builds — in every reachable state no completed promise holds `failure .nil`,
+    no pooled task carries it and no registered callback can produce it.  Hence along a valid schedule every
+    `t.Failed().Get()` the Go tasks evaluate (future.go:338, future_op.go:228, …) is the non-panicking
+    `failedGet (failure e) = pure e`, which is the branch the model's `runTask` implements; the branch on which
+    model and code differ (`illformed_source_excluded`) is unreachable. -/
+theorem wellformed_every_schedule (nsrc : Nat) (evs : List Ev) (hv : Valid nsrc (Net.empty nsrc) evs) :
+    WFNet (runEvs (Net.empty nsrc) evs) :=
+  wf_runEvs evs _ (wfNet_empty nsrc) (valid_evWF evs _ hv)
+
+/-- … in particular: no promise is ever completed with the zero-value Try. -/
+theorem never_failure_nil (nsrc : Nat) (evs : List Ev) (hv : Valid nsrc (Net.empty nsrc) evs) (p : Nat) :
+    (runEvs (Net.empty nsrc) evs).status p ≠ some (.failure .nil) :=
+  fun h => (wellformed_every_schedule nsrc evs hv).status p _ h rfl
+
+/-- **The executable model agrees with the panic-aware reading of the Go tasks, for every valid schedule**: `runEvsGo`
+    (Lemmas/FutWF.lean) returns `none` as soon as a task that evaluates `t.Failed().Get()` is run on `failure .nil`
+    (the Go task panics there and completes nothing); along a valid schedule that never happens, and the state reached
+    is exactly the one the oracle's total `runEvs` computes. -/
+theorem go_agrees_every_schedule (nsrc : Nat) (evs : List Ev) (hv : Valid nsrc (Net.empty nsrc) evs) :
+    runEvsGo (Net.empty nsrc) evs = some (runEvs (Net.empty nsrc) evs) :=
+  runEvsGo_eq evs _ (wfNet_empty nsrc) (valid_evWF evs _ hv)
+
+/-- What the Go task of `future.FlatMap` / `Future.FlatMap` / `Map` / `RecoverCaseWith` does on its failure branch
+    (`np.Failure(t.Failed().Get())`, future/future_op.go:228, future.go:338,322,307), as a `GoM` computation
+    that may panic: the Try it hands to `np.Complete`. -/
+def goFailureBranch (t : Try Val) : GoM (Try Val) := do
+  let e ← Try.failedGet t
+  pure (.failure e)
+
+/-- on a well-formed failure the Go task passes the failure on unchanged: exactly the model's
+    `complete np (.failure e)` -/
+theorem goFailureBranch_wf (e : Err) (h : e ≠ .nil) : goFailureBranch (.failure e) = pure (.failure e) := by
+  simp [goFailureBranch, Try.failedGet_failure e h]
+
+/-- **The excluded branch** (audit finding 1), on the smallest event list: one source, `FlatMap` (or `Map`)
+    on it, the source is completed with the ill-formed `Try{}` = `failure .nil`, the task runs.
+    * The schedule is NOT valid (`EvOK` rejects the `.src` event) — so none of the C06 theorems speak about it;
+    * the executable model answers `some (.failure .nil)` for the derived promise 1: it is total there;
+    * the Go task does not complete the derived promise: `np.Failure(t.Failed().Get())` (future_op.go:228;
+      `Future.FlatMap` future.go:338, `Future.Map` future.go:322) evaluates `Try.Failed()` which for `err == nil`
+      is `Failure("Try not initialized correctly")` (try.go:86-88), and `.Get()` of that panics (try.go:40-45)
+      before `np.Failure` is called: `goFailureBranch (.failure .nil)` is the panic `ErrNotInit`, no `Complete`
+      call happens, the derived future stays pending forever (with the default `go runnable.Run()` executor the
+      unrecovered panic terminates the process): the panic-aware reading `runEvsGo` is `none`, and before the task
+      ran promise 1 was pending (last conjunct) — in Go it stays so.  Replay: `go run ./cmd/c06illformed` in harness/
+      prints `TASK PANICKED: Try not initialized correctly`, `derived completed: false`.
+    So on this input the model's answer is not what the code does; the side condition `WFTry` is what excludes it. -/
+theorem illformed_source_excluded (k : Val → FExpr) :
+    let evs : List Ev := [.mk (.flatMap (.ref 0) k), .src 0 (.failure .nil), .run 0]
+    ¬ Valid 1 (Net.empty 1) evs ∧
+    (runEvs (Net.empty 1) evs).status 1 = some (.failure .nil) ∧
+    goFailureBranch (.failure .nil) = throw "ErrNotInit" ∧
+    runEvsGo (Net.empty 1) evs = none ∧
+    (runEvs (Net.empty 1) (evs.take 2)).status 1 = none := by
+  refine ⟨?_, rfl, rfl, rfl, rfl⟩
+  intro hv
+  exact hv.2.1.2 rfl
+
+/-- the same with `future.Failed[T](nil)` as the operand (a program, not the environment, creates the ill-formed
+    Try): `WFE` rejects the program; the model completes the derived promise with `failure .nil`. -/
+theorem illformed_failed_excluded (k : Val → FExpr) :
+    let evs : List Ev := [.mk (.flatMap (.failed .nil) k), .run 0]
+    ¬ Valid 0 (Net.empty 0) evs ∧
+    (runEvs (Net.empty 0) evs).status 1 = some (.failure .nil) ∧
+    runEvsGo (Net.empty 0) evs = none := by
+  refine ⟨?_, rfl, rfl⟩
+  intro hv
+  have h := hv.1.2
+  cases h with
+  | flatMap _ _ he _ => cases he with | failed _ hne => exact hne rfl
+
 /-- the handle `build e` returns is, in every later state, the root of `e` in the ghost specs -/
 theorem built_future_root (nsrc : Nat) (evs evs' : List Ev) (e : FExpr)
     (hv : Valid nsrc (Net.empty nsrc) (evs ++ .mk e :: evs')) :
@@ -664,7 +775,7 @@ theorem built_future_root (nsrc : Nat) (evs evs' : List Ev) (e : FExpr)
       exact ⟨⟨hm.1, h1⟩, h2, h3⟩
   obtain ⟨hv1, hfo, hv3⟩ := hvalid evs _ hv
   have hin : Inv nsrc n := inv_run evs _ (inv_init nsrc) hv1
-  have hb := inv_build e n hin hfo
+  have hb := inv_build e n hin hfo.1
   have hrun : n' = runEvs (step n (.mk e)) evs' := by
     show runEvs _ (evs ++ .mk e :: evs') = _
     simp [runEvs, List.foldl_append]
@@ -690,10 +801,10 @@ theorem built_future_root (nsrc : Nat) (evs evs' : List Ev) (e : FExpr)
                fun q c hc => cbOK_le hle0 q c (hm.cbs q c hc), hm.fresh, hm.srcs⟩
             exact hle0.trans (inv_runTask h0 tk (taskOK_le hle0 tk (hm.tasks tk hmem))).2
         | src p t =>
-          have hp : p < nsrc := hval.1
+          have hp : p < nsrc := hval.1.1
           exact (inv_complete hm p t (Nat.lt_of_lt_of_le hp hm.srcs.1) (by
             intro _; rw [hm.srcs.2 p hp]; simp [evalS])).2
-        | mk e' => exact (inv_build e' m hm hval.1).le
+        | mk e' => exact (inv_build e' m hm hval.1.1).le
         | obs p id => exact (inv_onComplete hm p (.observe id) trivial).2
       exact hstep.trans (ih _ (inv_step hm a hval.1) hval.2)
   have hroot : RootOf n' n.next q e := by
@@ -747,14 +858,47 @@ theorem fo_traverseSeq {b : Nat} (xs : List Val) (fn : Val → FExpr) (hfn : ∀
   | nil => exact hfo
   | cons x xs ih => exact ih _ (.flatMap _ _ hfo (fun _ => fo_map _ _ (hfn x)))
 
+-- … and they are hereditarily well formed (audit finding 1): none of the library's own combinators can introduce
+-- an ill-formed Try; only `Failed(nil)`, a `Transform` function, an `Apply` body or a source can ------------------
+
+theorem wfe_map (e : FExpr) (f : Val → W Val) (he : WFE e) : WFE (Fut.map e f) :=
+  .flatMap _ _ he (fun _ => .logged _ _ (.successful _))
+
+theorem wfe_map2 (p q : Nat) (f : Val → Val → W Val) : WFE (Fut.map2 p q f) :=
+  .flatMap _ _ (.ref p) (fun _ => wfe_map _ _ (.ref q))
+
+theorem wfe_zip (p q : Nat) : WFE (Fut.zip p q) := wfe_map2 p q _
+
+theorem wfe_compose (f1 f2 : Val → FExpr) (a : Val) (h1 : ∀ v, WFE (f1 v)) (h2 : ∀ v, WFE (f2 v)) :
+    WFE (Fut.compose f1 f2 a) := .flatMap _ _ (h1 a) h2
+
+theorem wfe_sequenceAcc (ps : List Nat) (acc : FExpr) (hacc : WFE acc) : WFE (Fut.sequenceAcc ps acc) := by
+  induction ps generalizing acc with
+  | nil => exact hacc
+  | cons p ps ih => exact ih _ (.flatMap _ _ hacc (fun _ => wfe_map _ _ (.ref p)))
+
+theorem wfe_sequence (ps : List Nat) : WFE (Fut.sequence ps) :=
+  wfe_map _ _ (wfe_sequenceAcc ps _ (.successful _))
+
+theorem wfe_traverseSeq (xs : List Val) (fn : Val → FExpr) (hfn : ∀ v, WFE (fn v)) :
+    WFE (Fut.traverseSeq xs fn) := by
+  unfold Fut.traverseSeq
+  generalize hacc : FExpr.successful (Val.seq []) = acc
+  have hwf : WFE acc := by subst hacc; exact .successful _
+  clear hacc
+  induction xs generalizing acc with
+  | nil => exact hwf
+  | cons x xs ih => exact ih _ (.flatMap _ _ hwf (fun _ => wfe_map _ _ (hfn x)))
+
 /-- non-vacuity: a concrete schedule (Map2 of two sources; the second source completes first, tasks run,
     the first source fails) is valid, ends with the derived future holding exactly the first source's failure. -/
 example :
     let evs : List Ev := [.mk (Fut.map2 0 1 (fun x y => (.tup [x, y], []))), .src 1 (.success (.int 5)), .run 0,
                           .src 0 (.failure (.code 3)), .run 0, .run 0]
     Valid 2 (Net.empty 2) evs ∧ (runEvs (Net.empty 2) evs).status 2 = some (.failure (.code 3)) := by
-  refine ⟨⟨fo_map2 0 1 _ (by decide) (by decide), (by show (1 : Nat) < 2; decide), trivial,
-    (by show (0 : Nat) < 2; decide), trivial, trivial, trivial⟩, ?_⟩
+  refine ⟨⟨⟨fo_map2 0 1 _ (by decide) (by decide), wfe_map2 0 1 _⟩,
+    ⟨(by show (1 : Nat) < 2; decide), wfTry_success _⟩, trivial,
+    ⟨(by show (0 : Nat) < 2; decide), (wfTry_failure _).2 (by decide)⟩, trivial, trivial, trivial⟩, ?_⟩
   rfl
 
 end FpVerif.Spec.C06
